@@ -125,6 +125,58 @@ def compiled_corpus(ctx, gen, nfiles, nfun, nrust):
                 exp, kind = linemap[line]
                 out.append((sym.encode(), exp, "%s:%s" % (cxx, kind)))
                 info["%s:%s" % (cxx, kind)] += 1
+    # thunks of hierarchies with virtual bases / covariant return types (`_ZTv0_n24_…`, `_ZTch0_v0_n24_…`: the name of
+    # the function the thunk adjusts to is the expected result) and identifiers that look like hexadecimal words
+    for cxx in compilers:
+        src, linemap = gen.thunk_source(ctx.rng)
+        path = os.path.join(d, "thunk-%s.cpp" % cxx)
+        open(path, "w").write(src)
+        obj = path[:-4] + ".o"
+        r = C.sh([cxx, "-std=gnu++17", "-g", "-O0", "-w", "-c", path, "-o", obj])
+        if r.returncode != 0:
+            ctx.notes.append("corpus: %s failed on the thunk file: %s" % (cxx, r.stdout[-300:]))
+            info["compile_failed"] += 1
+            continue
+        for sym, line in nm_lines(obj):
+            if line in linemap and sym.startswith("_Z"):
+                exp, kind = linemap[line]
+                m = re.match(r"_ZT(h|v|ch|cv)", sym)
+                if m:
+                    kind = "thunk:T" + m.group(1)
+                out.append((sym.encode(), exp, "%s:%s" % (cxx, kind)))
+                info["%s:%s" % (cxx, kind)] += 1
+    # static initialisers: `_GLOBAL__sub_I_` + the mangled name of the first global definition of the unit (g++);
+    # expected = the prefix + the qualified name of that definition
+    if "g++" in compilers:
+        for k, (src, linemap, first, shape) in enumerate(gen.static_init_sources(ctx.rng, 6 if nfiles <= 2 else 26)):
+            path = os.path.join(d, "sinit%d.cpp" % k)
+            open(path, "w").write(src)
+            obj = path[:-4] + ".o"
+            r = C.sh(["g++", "-std=gnu++17", "-g", "-O0", "-w", "-c", path, "-o", obj])
+            if r.returncode != 0:
+                ctx.notes.append("corpus: g++ failed on static-initialiser unit %d: %s" % (k, r.stdout[-300:]))
+                info["compile_failed"] += 1
+                continue
+            by_sym = {}
+            for sym, line in nm_lines(obj):
+                if line in linemap and sym.startswith("_Z"):
+                    exp, kind = linemap[line]
+                    by_sym[sym] = exp
+                    out.append((sym.encode(), exp, "g++:" + kind))
+                    info["g++:" + kind] += 1
+            for sym in C.sh(["nm", obj]).stdout.split():
+                if sym.startswith("_GLOBAL__sub_I_"):
+                    tail = sym[15:]
+                    if not tail.startswith("_Z"):
+                        exp = sym                       # plain name of a variable: unchanged
+                    elif tail in by_sym:
+                        exp = "_GLOBAL__sub_I_" + by_sym[tail]
+                    elif first is not None and shape.endswith("variable"):
+                        exp = "_GLOBAL__sub_I_" + first
+                    else:
+                        continue
+                    out.append((sym.encode(), exp, "g++:sinit:%s" % shape))
+                    info["g++:sinit-symbol"] += 1
     # local classes (members of classes defined inside functions), with discriminators
     for cxx in compilers:
         src, linemap = gen.local_source(ctx.rng, class_params=finding_listed("F10i"))
@@ -804,7 +856,12 @@ def run(ctx):
         "rule": "distinct names only. (a) names the installed g++/clang++/rustc emit for generated declarations "
                 "(namespaces, nested classes, class/function templates, ctors, dtors, operators, conversion/new/delete; "
                 "Rust modules, inherent/generic/trait-impl methods), expected = qualified name of the declaration found "
-                "through DWARF line info; (b) DEMANGLE_TEST vectors of utils/demangle.c with their expected strings, "
+                "through DWARF line info; thunks (_ZTh/_ZTv/_ZTch/_ZTcv) of generated hierarchies with virtual bases and "
+                "covariant return types (expected = the function adjusted to), identifiers that look like hexadecimal words "
+                "(head, hadd, h264, dead, …) at every position of a qualified name, g++ static initialisers "
+                "_GLOBAL__sub_I_<first global definition> of small units whose first definition is a ctor/dtor/method/"
+                "operator/function/variable at global or namespace scope (expected = prefix + qualified name); "
+                "(b) DEMANGLE_TEST vectors of utils/demangle.c with their expected strings, "
                 "names in tests/, exported libstdc++ names; (c) truncation at every length, byte flips (incl. >= 0x80), "
                 "token insertion/deletion/swap/duplication, over-long numbers, C1/D0 without a name, splices, token soup; "
                 "(d) random bytes behind _Z/_ZN/_ZT/_GLOBAL__sub_I__Z/no prefix. distinct_nontrivial = names that "
